@@ -119,6 +119,8 @@ int main(int argc, char **argv) {
       FILE *in = fopen(basepath, "rb"); long tot = 0; uint32_t hh = 2166136261u;
       if (in) { uint8_t buf[65536]; size_t r; while ((r = fread(buf, 1, sizeof buf, in)) > 0) { for (size_t i = 0; i < r; ++i) { hh ^= buf[i]; hh *= 16777619u; } tot += r; } fclose(in); }
       printf("fhash %ld %08x\n", in ? tot : -1L, hh);
+    } else if (!strcmp(op, "fsize")) {
+      struct stat st; printf("fsize %ld\n", stat(basepath, &st) ? -1L : (long) st.st_size);
     } else if (!strcmp(op, "close")) {
       for (int i = 0; i < MAXCUR; ++i) if (curs[i]) iwkv_cursor_close(&curs[i]);
       iwrc rc = kv ? iwkv_close(&kv) : IW_ERROR_INVALID_STATE;
@@ -189,8 +191,6 @@ int main(int argc, char **argv) {
       if (dbs[atoi(w[1])]) do_dump(dbs[atoi(w[1])]); else printf("dump nodb\n");
     } else if (!strcmp(op, "nodes") && n == 2) {
       if (dbs[atoi(w[1])]) do_nodes(dbs[atoi(w[1])]); else printf("nodes nodb\n");
-    } else if (!strcmp(op, "fsize")) {
-      struct stat st; printf("fsize %ld\n", stat(basepath, &st) ? -1L : (long) st.st_size);
     } else if (!strcmp(op, "cur") && n >= 3) {    // cur <c> <sub> ...
       int ci = atoi(w[1]); const char *sub = w[2];
       IWKV_cursor c = curs[ci];
